@@ -112,6 +112,26 @@ def run_case(seed, many=False):
         pf.fields[rng.randrange(len(pf.fields))] = 'volFrac'
     keys = c01.reader_keys(pf.fields)
     path = core.scratch_dir(f"c09_{seed}")
+    # level-0 cells UNDER level 1 that hold no usable number (a writer that does not average down leaves NaN / inf /
+    # a huge marker there): they are not part of the integral as soon as level 1 is selected
+    rp = random.Random(seed * 1543 + 11)
+    poisoned = pf.nlevels >= 2 and not many and rp.random() < 0.25
+    lsx = lvls_sx(pf)
+    if poisoned:
+        import copy
+        pfm = copy.deepcopy(pf)               # what the model is given: an integer marker in the same cells
+        occ = np.zeros(pf.grid_size(1), dtype=bool)
+        for lo, hi in pf.levels[1].boxes:
+            occ[tuple(slice(l, h + 1) for l, h in zip(lo, hi))] = True
+        for b, (lo, hi) in enumerate(pf.levels[0].boxes):
+            cov = occ[tuple(slice(2 * l, 2 * (h + 1), 2) for l, h in zip(lo, hi))]
+            for c in range(len(pf.fields)):
+                marks = rp.choice([[np.nan], [np.inf, -np.inf], [np.nan, np.inf, 1e300], [-1e300, np.nan]])
+                col = pf.levels[0].data[b][..., c]
+                col[cov] = np.resize(np.array(marks), int(cov.sum()))
+                pfm.levels[0].data[b][..., c][cov] = 7919
+        lsx = lvls_sx(pfm)
+    count(f"covered level-0 cells hold NaN / inf / 1e300={poisoned}")
     gen.write_plotfile(pf, path)
     sizes = sorted({h - l + 1 for lev in pf.levels for lo, hi in lev.boxes for l, h in zip(lo, hi)})
     count(f"levels={pf.nlevels}")
@@ -119,12 +139,13 @@ def run_case(seed, many=False):
     count(f"geo={pf.meta['geo']}")
     count(f"box_edges={'mixed' if len(sizes) > 1 else 'uniform'}")
     count(f"min_edge_divides_all_corners={all(c % sizes[0] == 0 for lev in pf.levels for lo, hi in lev.boxes for c in list(lo) + [h + 1 for h in hi])}")
-    lsx = lvls_sx(pf)
     shared = {}
     for k in range(3):
         field = rng.choice(keys)
         comp = keys.index(field)
         limit_arg = rng.choice([None, None] + list(range(pf.nlevels)) + [pf.nlevels])
+        if poisoned and limit_arg == 0:
+            limit_arg = rp.choice([None] + list(range(1, pf.nlevels + 1)))
         L = pf.nlevels - 1 if limit_arg is None else min(limit_arg, pf.nlevels - 1)
         use_vol = rng.random() < 0.5
         vcomp = keys.index('volFrac') if (use_vol and 'volFrac' in keys) else None
